@@ -166,6 +166,7 @@ Proof.
     destruct auth as [c|]; [|assumption]. destruct (clients s c) as [cl|]; [|assumption].
     destruct (negb (args_has (cl_grants cl) _)); [assumption|].
     destruct (key_of s dev) as [k0|]; [|assumption].
+    destruct (used_device cfg (st s) k0) as [rid|]; [cbn; rewrite RR, RA; assumption|].
     destruct (device (st s) k0) as [[stt r]|]; [|assumption].
     repeat match goal with |- context [if ?c then fail s _ else _] => destruct c; [assumption|] end.
     match goal with |- context [grant_tokens ?s2 ?stored ?w] =>
